@@ -720,7 +720,7 @@ func checkMakeSizes(p *an.Prog, r *an.Run, fns []*ssa.Function, scope map[*ssa.F
 		}
 		switch x := v.(type) {
 		case *ssa.Call:
-			if b, ok := x.Call.Value.(*ssa.Builtin); ok && (b.Name() == "len" || b.Name() == "cap") {
+			if b, ok := x.Call.Value.(*ssa.Builtin); ok && (an.Ident(b.Name()) == "len" || an.Ident(b.Name()) == "cap") {
 				return true
 			}
 			if f := an.CallObj(x); f != nil && (f.Name() == "NumIn" || f.Name() == "NumOut" || f.Name() == "NumMethod" || f.Name() == "Len") {
@@ -848,8 +848,8 @@ func checkMakeSizes(p *an.Prog, r *an.Run, fns []*ssa.Function, scope map[*ssa.F
 		}
 		switch x := v.(type) {
 		case *ssa.Call:
-			if b, ok := x.Call.Value.(*ssa.Builtin); ok && (b.Name() == "len" || b.Name() == "cap" || b.Name() == "min") {
-				if b.Name() == "min" {
+			if b, ok := x.Call.Value.(*ssa.Builtin); ok && (an.Ident(b.Name()) == "len" || an.Ident(b.Name()) == "cap" || an.Ident(b.Name()) == "min") {
+				if an.Ident(b.Name()) == "min" {
 					for _, a := range x.Call.Args {
 						if bounded(a, rels, depth, seen) {
 							return true
@@ -1031,7 +1031,7 @@ func checkNilMaps(p *an.Prog, r *an.Run, fns []*ssa.Function) {
 								okAll = false
 								return
 							}
-							if f2.Synthetic == "package initializer" || f2.Name() == "init" {
+							if f2.Synthetic == "package initializer" || an.Ident(f2.Name()) == "init" {
 								initInPkg = true
 							}
 						})
